@@ -36,6 +36,21 @@ pub uninterp spec fn cause_cycle() -> bool;
 /// the configured shell could not be resolved
 pub uninterp spec fn cause_shell_unresolved() -> bool;
 
+/// ghost marker: WHY a run may succeed.  It can only be established where nothing is pending, nobody waits and every
+/// required file (named inputs, scanned files, reported dependencies) has completed its final pass.
+pub uninterp spec fn success_justified() -> bool;
+
+#[verifier::external_body]
+pub proof fn mark_success(required: Set<AbsPath>, fin: Set<AbsPath>, pending: Multiset<TaskV>, no_waits: bool)
+    requires
+        pending.len() == 0,
+        no_waits,
+        forall|f: AbsPath| required.contains(f) ==> fin.contains(f),
+    ensures
+        success_justified(),
+{
+}
+
 #[verifier::external_body]
 pub proof fn mark_cycle(rem_nonempty: bool)
     requires
